@@ -185,6 +185,19 @@ pub struct Detail {
     pub is_one: bool,
     pub unit_singular: String,
     pub unit_plural: String,
+    /// the unit taken apart: every (unit, prefix, power) entry rendered on its own by the library
+    /// (singular and plural, denominators with the exponent made positive); how the parts are put
+    /// together - numerator parts, '/', denominator parts - is then the simulator's own reading of
+    /// the statement, not the library's Display
+    #[serde(default, skip_serializing_if = "Vec::is_empty")]
+    pub unit_parts: Vec<UnitPart>,
+}
+
+#[derive(Serialize, Deserialize, Clone, Debug, PartialEq, Eq)]
+pub struct UnitPart {
+    pub numerator: bool,
+    pub singular: String,
+    pub plural: String,
 }
 
 #[derive(Serialize, Deserialize, Clone, Debug, PartialEq, Eq)]
